@@ -241,7 +241,8 @@ pub fn generate(t: &mut Tape, o: &ROpts) -> Scenario {
         outs.push(ROut { name: if named { Some(out_names[j].to_string()) } else { None }, party: 1 + t.pick(n_parties - 1), terms, change: false });
     }
     outs.push(ROut { name: if t.flag() { Some("rest".into()) } else { None }, party: 0, terms: vec![], change: true });
-    let in_names = ["source", "gas", "Pool", "extra_in"];
+    // blocks are served in name order: names on both sides of `collateral`
+    let in_names = if t.chance(1, 3) { ["anchor", "source", "gas", "Pool"] } else { ["source", "gas", "Pool", "extra_in"] };
     let mut ins = vec![];
     for i in 0..n_in {
         let mut min = vec![];
